@@ -323,7 +323,88 @@ def rule_d(ctx: Ctx) -> None:
     ctx.min_instances("delimited_text_sites", n, 4)
 
 
-RULES = [rule_a, rule_b, rule_c, rule_d]
+def rule_e(ctx: Ctx) -> None:
+    ctx.rule("C07.e", "line-break agreement of the pretty printer: every character sequence Generator.indent treats as a line boundary is one that "
+                      "_replace_line_breaks hides behind the sentinel (otherwise that character inside a literal is re-indented and rewritten)")
+    import re._parser as sre  # regex AST of the standard library (no matching is performed)
+
+    g = ctx.repo.cls(GEN, "Generator")
+    meths = g.methods()
+    ind, rep = meths.get("indent"), meths.get("_replace_line_breaks")
+    ctx.require(ind is not None and rep is not None, "anchor vanished: Generator.indent / Generator._replace_line_breaks")
+    hidden = {c.args[0].value for c in walk_no_nested(rep) if isinstance(c, ast.Call) and isinstance(c.func, ast.Attribute) and c.func.attr == "replace"
+              and c.args and isinstance(c.args[0], ast.Constant) and isinstance(c.args[0].value, str)}
+    ctx.require(bool(hidden), "anchor vanished: _replace_line_breaks no longer replaces a constant line break")
+    m = g.module
+    consts = {t_.id: st.value for st in m.tree.body if isinstance(st, ast.Assign) for t_ in st.targets if isinstance(t_, ast.Name)}
+
+    def literal_alternatives(pattern: str) -> set[str] | None:
+        try:
+            tree = sre.parse(pattern)
+        except Exception:  # noqa: BLE001
+            return None
+        def seqs(items) -> set[str] | None:
+            out = {""}
+            for op, av in items:
+                name = str(op)
+                if name == "LITERAL":
+                    out = {x + chr(av) for x in out}
+                elif name == "BRANCH":
+                    alts: set[str] = set()
+                    for alt in av[1]:
+                        r = seqs(alt)
+                        if r is None:
+                            return None
+                        alts |= r
+                    out = {x + y for x in out for y in alts}
+                elif name == "IN":
+                    chars = set()
+                    for o2, a2 in av:
+                        if str(o2) != "LITERAL":
+                            return None
+                        chars.add(chr(a2))
+                    out = {x + y for x in out for y in chars}
+                elif name == "MAX_REPEAT" and av[0] == 0 and av[1] == 1:
+                    r = seqs(av[2])
+                    if r is None:
+                        return None
+                    out = out | {x + y for x in out for y in r}
+                else:
+                    return None
+            return out
+        return seqs(tree)
+
+    splits: list[tuple[ast.AST, set[str] | None]] = []
+    for c in walk_no_nested(ind):
+        if not (isinstance(c, ast.Call) and isinstance(c.func, ast.Attribute)):
+            continue
+        if c.func.attr == "split" and (call_name(c) or "") == "re.split" and c.args and isinstance(c.args[0], ast.Constant):
+            splits.append((c, literal_alternatives(c.args[0].value)))
+        elif c.func.attr == "split" and c.args and isinstance(c.args[0], ast.Constant) and isinstance(c.args[0].value, str):
+            splits.append((c, {c.args[0].value}))
+        elif c.func.attr == "splitlines":
+            splits.append((c, {"\n", "\r", "\r\n", "\x0b", "\x0c", "\x1c", "\x1d", "\x1e", "\x85", "\u2028", "\u2029"}))
+        elif c.func.attr == "split" and isinstance(c.func.value, ast.Name) and c.func.value.id in consts:
+            v = consts[c.func.value.id]
+            pat = v.args[0].value if isinstance(v, ast.Call) and (call_name(v) or "").endswith("compile") and v.args and isinstance(v.args[0], ast.Constant) else None
+            splits.append((c, literal_alternatives(pat) if isinstance(pat, str) else None))
+    ctx.require(bool(splits), "anchor vanished: Generator.indent no longer splits its input into lines")
+    for c, seps in splits:
+        inst = f"{g.key}.indent|{norm(c, 60)}"
+        if seps is None:
+            ctx.ok(inst, {"split": norm(c, 60), "decided": False, "note": "separator form not recognised; agreement not decided"})
+            ctx.notes.append("C07.e: line separator of Generator.indent not recognised; agreement not decided")
+            continue
+        extra = sorted(x for x in seps if x and x not in hidden)
+        if extra:
+            ctx.fail(m, c, f"{g.key}.indent", c,
+                     f"indent() treats {extra!r} as line boundaries but _replace_line_breaks only hides {sorted(hidden)!r}: such a character inside quoted text is "
+                     f"re-indented (and rewritten to a newline) under pretty=True, changing the literal")
+        else:
+            ctx.ok(inst, {"split_on": sorted(seps), "hidden": sorted(hidden)})
+
+
+RULES = [rule_a, rule_b, rule_c, rule_d, rule_e]
 EXPLANATION = (
     "Pairing and confinement rules on the generator: the sentinel's single guarded insertion/removal pair with "
     "post-domination of generate()'s returns and delegation of overrides, injectivity of the substitution, flow of "
